@@ -42,6 +42,7 @@ class Rec:
             self.hashes.add(A.sha(case_obj))
 
     def cmp(self, n=1, cell=None):
+        """n oracle comparisons made (optionally attributed to an input cell)."""
         self.evaluations += n
         if cell is not None:
             self.cells[cell] += n
